@@ -1,7 +1,9 @@
 package blk
 
 import (
+	"context"
 	"fmt"
+	"sync"
 	"testing"
 	"time"
 
@@ -362,6 +364,145 @@ func TestProp_C04_node(t *testing.T) {
 		}
 		k.Op("n=%d corrupt=%s ext=%v", len(c.txs), c.corrupt, extended)
 		k.NonTrivial = c.corrupt != "none"
+		k.Done()
+	})
+}
+
+// ---------------------------------------------------------------------------------------------
+// C16, the node's side of a block request: what the peer connection reports at cancel time must
+// agree with whether the block handler is (or will be) called.
+
+const ruleC16node = "a real BitcoinNode (ready, over loopback TCP) is asked for a block; the scripted peer delivers the block message in pieces - frame header | 80-byte block header | transaction count | each transaction - and CancelBlockRequest is called on the node after a drawn piece (or before the first, or after the last); the handler passed to RequestBlock records whether it was called and reads its transaction channel to the end; oracle: if CancelBlockRequest answered 'not started' the handler is never called afterwards and is not running at that moment (the downloader was told it need not wait for it; a download that had already finished is the one exception), if it answered 'started' the handler's transaction channel ends (closed) within 10 s, in every case the handler returns within 10 s and afterwards the connection is either in sync (a ping is answered) or closed by the node, not stuck; non-trivial = the cancel fell strictly inside the block message; distinct = (transactions, cut point, extended)"
+
+func TestProp_C16_node(t *testing.T) {
+	col := evid.For("C16", "node", ruleC16node)
+	rapid.Check(t, func(t *rapid.T) {
+		k := col.NewCase()
+		ctx := vt.Ctx()
+		n := rapid.IntRange(1, 4).Draw(t, "txs")
+		extended := rapid.Bool().Draw(t, "extended")
+		var txs []*wire.MsgTx
+		var ids []model.Hash
+		for i := 0; i < n; i++ {
+			tx := p2p.Tx(uint32(8800+i), 80+i)
+			txs = append(txs, tx)
+			ids = append(ids, p2p.TxID(tx))
+		}
+		header := model.RawHeader{Version: 1, Bits: 0x1d00ffff, Merkle: model.MerkleRoot(ids), Nonce: 77}
+		requested := header.Hash()
+		frame := p2p.Encode(p2p.Block(header, txs, uint64(n), extended))
+		// piece boundaries inside the encoded frame
+		payloadAt := len(frame)
+		for _, tx := range txs {
+			payloadAt -= len(p2p.TxBytes(tx))
+		}
+		countLen := len(p2p.VarInt(uint64(n)))
+		headerAt := payloadAt - countLen - 80
+		cuts := []int{0, headerAt, headerAt + 80, payloadAt}
+		off := payloadAt
+		for _, tx := range txs {
+			off += len(p2p.TxBytes(tx))
+			cuts = append(cuts, off)
+		}
+		cutIdx := rapid.IntRange(0, len(cuts)-1).Draw(t, "cancelAfterPiece")
+		s := sess.Start(t, sess.Opts{})
+		defer s.Finish(10 * time.Second)
+		s.Ready(t)
+		var mu sync.Mutex
+		called, chanEnded := false, false
+		handlerDone := make(chan struct{})
+		handler := func(ctx context.Context, h *wire.BlockHeader, txCount uint64, txChannel <-chan *wire.MsgTx) error {
+			mu.Lock()
+			called = true
+			mu.Unlock()
+			for range txChannel {
+			}
+			mu.Lock()
+			chanEnded = true
+			mu.Unlock()
+			close(handlerDone)
+			return nil
+		}
+		if err := s.Node.RequestBlock(ctx, bitcoin.Hash32(requested), handler, func(context.Context) {}); err != nil {
+			t.Fatalf("RequestBlock: %s", err)
+		}
+		if !s.Peer.WaitCommand("getdata", 1, 10*time.Second) {
+			t.Fatalf("no getdata")
+		}
+		cut := cuts[cutIdx]
+		if cut > 0 {
+			if err := s.Peer.SendRaw(frame[:cut]); err != nil {
+				t.Fatalf("send: %s", err)
+			}
+			// let the node take what was sent: it is parked in its next read afterwards
+			time.Sleep(3 * time.Millisecond)
+		}
+		// While the node is waiting for the peer's next bytes of a block it has started to read,
+		// CancelBlockRequest does not return before those bytes arrive (closing the block reader
+		// waits for the read in progress): the cancel runs in its own goroutine and the rest of the
+		// message follows, as it would from a real peer.
+		var started bool
+		cancelDone := make(chan struct{})
+		calledBefore, endedBefore := false, false
+		go func() {
+			started = s.Node.CancelBlockRequest(ctx, bitcoin.Hash32(requested))
+			mu.Lock()
+			calledBefore, endedBefore = called, chanEnded
+			mu.Unlock()
+			close(cancelDone)
+		}()
+		select {
+		case <-cancelDone:
+		case <-time.After(20 * time.Millisecond):
+			k.Class("cancel_waits_for_the_peers_next_bytes")
+		}
+		if cut < len(frame) {
+			if err := s.Peer.SendRaw(frame[cut:]); err != nil {
+				t.Fatalf("send rest: %s", err)
+			}
+		}
+		select {
+		case <-cancelDone:
+		case <-time.After(10 * time.Second):
+			t.Fatalf("CancelBlockRequest did not return within 10 s although the peer sent the rest of the block message (cut %d of %d)", cut, len(frame))
+		}
+		// afterwards the connection is either still in sync (a ping is answered) or the node hung up
+		s.Peer.Send(p2p.Ping(1616))
+		wantPong := p2p.Pong(1616).Payload
+		ok := s.Peer.WaitFor(10*time.Second, func(got []p2p.Frame, closed bool) bool {
+			if closed {
+				return true
+			}
+			for _, f := range got {
+				if f.Command == "pong" && string(f.Payload) == string(wantPong) {
+					return true
+				}
+			}
+			return false
+		})
+		if !ok {
+			t.Fatalf("neither a pong nor a hang-up within 10 s after a block request cancelled after %d of %d bytes (CancelBlockRequest answered started=%v): the reader is stuck in the block message", cut, len(frame), started)
+		}
+		if s.Peer.Closed() {
+			k.Class("node_hung_up_after_the_cancel")
+		}
+		mu.Lock()
+		c, e := called, chanEnded
+		mu.Unlock()
+		// 'not started' is only a consistent answer when the handler is never called, or when the
+		// whole download had already finished before the cancel (nothing left to cancel)
+		if !started && c && !(calledBefore && endedBefore) {
+			t.Fatalf("CancelBlockRequest answered 'not started' after %d of %d bytes of the block message, but the block handler was running or was called afterwards (called before the answer=%v, finished before the answer=%v; %d txs, extended=%v)", cut, len(frame), calledBefore, endedBefore, n, extended)
+		}
+		if c {
+			select {
+			case <-handlerDone:
+			case <-time.After(10 * time.Second):
+				t.Fatalf("block handler was called but its transaction channel did not end within 10 s after the cancel (cut %d of %d, started=%v, channel ended=%v)", cut, len(frame), started, e)
+			}
+		}
+		k.Op("txs=%d cut=%d/%d ext=%v started=%v called=%v", n, cutIdx, len(cuts)-1, extended, started, c)
+		k.NonTrivial = cutIdx > 0 && cutIdx < len(cuts)-1
 		k.Done()
 	})
 }
